@@ -21,7 +21,7 @@ ASSUMPTIONS = ['at most one instance of a unique middleware type inside any sing
 REQUIRED_REACH = ['constructed', 'requests-on-accepted', 'beh:raise_before', 'beh:raise_after', 'beh:short', 'beh:swallow',
                   'beh:replace', 'beh:short_ctx', 'beh:ep-resp', 'beh:ep-raise', 'beh:rn-raise', 'levels:2', 'levels:3',
                   'dup-unique-across-levels', 'nonreorderable-dup', 'phase-seen:request', 'phase-seen:endpoint',
-                  'phase-seen:render', 'sibling-routes-with-own-middlewares', 'flavour:base', 'flavour:http']
+                  'phase-seen:render', 'sibling-routes-with-own-middlewares', 'flavour:base', 'flavour:http', 'raises-http-exception', 'subclass-across-levels']
 NSHARDS = 16
 MW_BEH = ['raise_before', 'raise_after', 'short', 'short_ctx', 'swallow', 'replace']
 
@@ -45,7 +45,13 @@ def retype(rng, cfg, sh):
     (i1, m1), (i2, m2) = rng.sample(flat, 2)
     if i1 == i2:
         return
-    mode = rng.pick(['unique', 'unique', 'nonunique', 'nonreorderable'])
+    mode = rng.pick(['unique', 'unique', 'nonunique', 'nonreorderable', 'subclass', 'subclass'])
+    if mode == 'subclass':
+        # one type derives from the other: different types, both stay (whichever level carries the subclass)
+        sub, base = (m1, m2) if rng.chance(0.5) else (m2, m1)
+        sub['base'], sub['base_unique'] = base['type'], base.get('unique', True)
+        sh.hit('subclass-across-levels')
+        return
     m2['type'] = m1['type']
     # provides of duplicates must stay conflict-free: the copy that may be dropped provides nothing
     for a in ('provides', 'endpoint_provides', 'render_provides'):
@@ -95,6 +101,11 @@ def make_case(rng, sh):
         beh.setdefault(fid, rng.pick(['raise_after', 'replace', 'swallow']))
     cfg['beh'] = beh
     # what kind of object a spy returns as "a Response": a werkzeug Response, a bare BaseResponse, or a returned HTTP error
+    cfg['exc_flavour'] = {}
+    for fid, b in beh.items():
+        if b in ('raise_before', 'raise_after', 'raise') and rng.chance(0.4):
+            cfg['exc_flavour'][fid] = 'http'        # the layer raises an HTTPException (an exception *and* a response)
+            sh.hit('raises-http-exception')
     cfg['resp_flavour'] = {}
     for fid, b in beh.items():
         if b in ('short', 'swallow', 'replace', 'resp') and rng.chance(0.45):
